@@ -567,6 +567,11 @@ func (ab *dsAddrBook) setAddrs(p peer.ID, addrs []ma.Multiaddr, ttl time.Duratio
 	if len(addrs) == 0 {
 		return nil
 	}
+	if ttl <= 0 {
+		// Nothing to store (ConsumePeerRecord gets here with any TTL). Don't let
+		// addrs that expire on arrival evict live ones through the per-peer cap.
+		return nil
+	}
 
 	pr, err := ab.loadRecord(p, true, false)
 	if err != nil {
@@ -587,6 +592,21 @@ func (ab *dsAddrBook) setAddrs(p peer.ID, addrs []ma.Multiaddr, ttl time.Duratio
 		addrsMap[string(addr.Addr)] = addr
 	}
 
+	// Per-peer cap on unconnected addrs. Entries held by a live connection
+	// (TTL >= ConnectedAddrTTL) bypass the cap and survive eviction. The
+	// cap bounds peerstore pollution from sources like DHT gossip while
+	// leaving addresses tied to active sessions intact.
+	maxCap := ab.opts.MaxAddrsPerPeer
+	incomingIsUnconnected := !ttlIsConnected(ttl)
+	unconnectedCount := 0
+	if maxCap > 0 && incomingIsUnconnected {
+		for _, a := range pr.Addrs {
+			if !ttlIsConnected(time.Duration(a.Ttl)) {
+				unconnectedCount++
+			}
+		}
+	}
+
 	updateExisting := func(incoming ma.Multiaddr) *pb.AddrBookRecord_AddrEntry {
 		existingEntry := addrsMap[string(incoming.Bytes())]
 		if existingEntry == nil {
@@ -595,6 +615,10 @@ func (ab *dsAddrBook) setAddrs(p peer.ID, addrs []ma.Multiaddr, ttl time.Duratio
 
 		switch mode {
 		case ttlOverride:
+			if incomingIsUnconnected && ttlIsConnected(time.Duration(existingEntry.Ttl)) {
+				// no longer held by a connection: counts against the cap from now on
+				unconnectedCount++
+			}
 			existingEntry.Ttl = int64(ttl)
 			existingEntry.Expiry = newExp
 		case ttlExtend:
@@ -610,25 +634,13 @@ func (ab *dsAddrBook) setAddrs(p peer.ID, addrs []ma.Multiaddr, ttl time.Duratio
 		return existingEntry
 	}
 
-	// Per-peer cap on unconnected addrs. Entries held by a live connection
-	// (TTL >= ConnectedAddrTTL) bypass the cap and survive eviction. The
-	// cap bounds peerstore pollution from sources like DHT gossip while
-	// leaving addresses tied to active sessions intact.
-	maxCap := ab.opts.MaxAddrsPerPeer
-	incomingIsUnconnected := !ttlIsConnected(ttl)
-	unconnectedCount := 0
-	if maxCap > 0 && incomingIsUnconnected {
-		for _, a := range pr.Addrs {
-			if !ttlIsConnected(time.Duration(a.Ttl)) {
-				unconnectedCount++
-			}
-		}
-	}
 	// evictNearestUnconnected drops the unconnected entry from pr.Addrs with
 	// the soonest expiry. Returns false when every remaining entry is held by
 	// a live connection, in which case the caller must drop the new addr.
+	var entries []*pb.AddrBookRecord_AddrEntry
 	evictNearestUnconnected := func() bool {
 		victim := -1
+		victimIsNew := false
 		var soonest int64
 		for i, a := range pr.Addrs {
 			if ttlIsConnected(time.Duration(a.Ttl)) {
@@ -639,15 +651,28 @@ func (ab *dsAddrBook) setAddrs(p peer.ID, addrs []ma.Multiaddr, ttl time.Duratio
 				soonest = a.Expiry
 			}
 		}
+		// entries added earlier in this call are candidates as well (they
+		// are unconnected, otherwise we would not be evicting)
+		for i, a := range entries {
+			if victim == -1 || a.Expiry < soonest {
+				victim = i
+				victimIsNew = true
+				soonest = a.Expiry
+			}
+		}
 		if victim == -1 {
 			return false
+		}
+		if victimIsNew {
+			delete(addrsMap, string(entries[victim].Addr))
+			entries = slices.Delete(entries, victim, victim+1)
+			return true
 		}
 		delete(addrsMap, string(pr.Addrs[victim].Addr))
 		pr.Addrs = slices.Delete(pr.Addrs, victim, victim+1)
 		return true
 	}
 
-	var entries []*pb.AddrBookRecord_AddrEntry
 	for _, incoming := range addrs {
 		existingEntry := updateExisting(incoming)
 
